@@ -4,6 +4,7 @@ in Neutrino/Lemmas/Ban*.lean.
 -/
 import Neutrino.Lemmas.BanHist
 import Neutrino.Lemmas.BanEnforce
+import Neutrino.Model.LockObj
 import Neutrino.Gen.Ban
 namespace Neutrino.Ban
 
@@ -461,10 +462,116 @@ theorem C13_isBanned_tracks_bans (T0 : Int) (h : List (Int × CsOp)) (now : Int)
     rw [this]
     simp
 
+/-! ## Concurrency: every store call is one bbolt write transaction -/
+
+/-- The ban store as a lock-protected object: a call (with the clock reading it
+takes inside its transaction) runs inside `walletdb.Update`, i.e. under the
+database's single-writer lock, as ANY sequence of micro-steps that composes to
+`step` (the instance is the coarsest decomposition; `lock_serializes` holds for
+every one).  That `Status` reads and purges inside that one transaction is
+`C13_source_facts` (`statusOneTransaction`). -/
+def banObj : LockObj.Obj State (Int × Op) Out :=
+  { Loc := Int × Op, start := id, micro := fun s c => ((step s c.1 c.2).1, .inr (step s c.1 c.2).2) }
+
+/-- **Every interleaving, any number of goroutines and calls**: whenever no
+call is inside its transaction, the store is in the state — and every completed
+call returned the result — of running the completed calls one at a time in the
+order in which they took the writer lock. -/
+theorem C13_lock_serializes (evs : List (LockObj.Ev (Int × Op))) :
+    let c := LockObj.crun banObj { shared := {}, holder := none, log := [] } evs
+    c.holder = none → LockObj.Replay banObj {} c.log c.shared :=
+  LockObj.lock_serializes banObj _ evs
+
+theorem outs_append (s : State) (a b : Hist) : outs s (a ++ b) = outs s a ++ outs (run s a) b := by
+  induction a generalizing s with
+  | nil => rfl
+  | cons p rest ih => obtain ⟨t, op⟩ := p; simp only [List.cons_append, outs, run]; rw [ih]
+
+/-- Replaying a log atomically is `run` on its calls, with `step`'s outputs. -/
+theorem C13_replay_is_run (s0 s : State) (log : List (Nat × (Int × Op) × Out))
+    (h : LockObj.Replay banObj s0 log s) :
+    s = run s0 (log.map (·.2.1)) ∧ log.map (·.2.2) = outs s0 (log.map (·.2.1)) := by
+  induction h with
+  | nil => exact ⟨rfl, rfl⟩
+  | @snoc log s s' t i r hr hex ih =>
+    obtain ⟨s1, l1, hp, hm⟩ := hex
+    have hpl : s1 = s ∧ l1 = i := by
+      cases hp with
+      | refl => exact ⟨rfl, rfl⟩
+      | step _ hc => simp [banObj] at hc
+    obtain ⟨rfl, rfl⟩ := hpl
+    simp only [banObj, Prod.mk.injEq, Sum.inr.injEq] at hm
+    obtain ⟨ti, opi⟩ := l1
+    simp only [List.map_append, List.map_cons, List.map_nil]
+    rw [run_append, outs_append, ← ih.1, ← ih.2]
+    simp only [run, outs]
+    exact ⟨hm.1.symm, by rw [hm.2]⟩
+
+/-- **No committed ban is lost to a concurrent `Status`** (nor to any other
+concurrent call): for every schedule of any number of goroutines calling ban /
+status / unban / reopen, at every quiescent point the guarantee of
+`C13_status_explicit` holds with respect to the calls completed so far, in lock
+order (their clock readings, taken inside the transactions, are non-decreasing
+in that order): the last unlifted ban of the queried network is reported, with
+its reason, by every later query whose second is below the ban's end, however
+the earlier status queries were interleaved with it. -/
+theorem C13_no_ban_lost_under_concurrency (evs : List (LockObj.Ev (Int × Op)))
+    (T0 now : Int) (tg : Target) (id : NetId) :
+    let c := LockObj.crun banObj { shared := {}, holder := none, log := [] } evs
+    let hist : Hist := c.log.map (·.2.1)
+    c.holder = none → monoFrom T0 hist → endTime T0 hist ≤ now → idOf tg = some id →
+    (∀ b, lastBan Oracle.empty hist id = some b →
+      (now / 1000 < b.lo / 1000 → (step c.shared now (.status tg)).2 = .banned b.reason (b.lo / 1000 * 1000)) ∧
+      (b.lo ≤ now → (step c.shared now (.status tg)).2 = .notBanned)) ∧
+    (lastBan Oracle.empty hist id = none → (step c.shared now (.status tg)).2 = .notBanned) := by
+  intro c hist hq hm hn hid
+  have hrep := C13_lock_serializes evs hq
+  have hrun := (C13_replay_is_run _ _ _ hrep).1
+  have hs : c.shared = run {} hist := hrun
+  rw [hs]
+  exact C13_status_explicit T0 hist now tg id hm hn hid
+
+/-- **A two-transaction `Status` loses a ban**: a lapsed record is stored
+(banned at 0 for −5 s); a split Status reads it at t = 10 (lapsed: to be
+purged); a 24 h re-ban commits at t = 11; the purge then deletes the key
+without re-reading — and the query at t = 12 says "not banned" although the last
+ban of the network runs until t = 86 400 011. -/
+theorem C13_split_status_counterexample :
+    (step (runSplit {} [.call 0 (.ban exAddr 1 (-5000)), .statusView 10 exAddr,
+                        .call 11 (.ban exAddr 5 banDurationMs), .statusPurge exAddr]) 12 (.status exAddr)).2 = .notBanned ∧
+    lastBan Oracle.empty [(0, .ban exAddr 1 (-5000)), (10, .status exAddr), (11, .ban exAddr 5 banDurationMs)] exId =
+      some ⟨86400011, 86400011, 5⟩ ∧
+    -- the atomic Status, same calls in either order around the re-ban, keeps it
+    (step (run {} [(0, .ban exAddr 1 (-5000)), (10, .status exAddr), (11, .ban exAddr 5 banDurationMs)]) 12 (.status exAddr)).2 =
+      .banned 5 86400000 ∧
+    (step (run {} [(0, .ban exAddr 1 (-5000)), (11, .ban exAddr 5 banDurationMs), (11, .status exAddr)]) 12 (.status exAddr)).2 =
+      .banned 5 86400000 := by decide
+
+/-- **A connection that was shaking hands while its IP got banned is turned
+away**: `p` is pending (its socket passed `outboundPeerConnected` earlier); a
+peer `q` with the same key is banned at `t1` (directly or for a lie); when
+`p`'s handshake completes at `t2` within the ban duration, `handleAddPeerMsg`
+does not record it — and drops the socket. -/
+theorem C13_handshake_race (n : Net) (t1 t2 : Int) (p q : Peer) (reason : Nat) (k : Bytes)
+    (hq : keyOf q.target = some k) (hp : keyOf p.target = some k)
+    (h12 : t1 ≤ t2) (hwin : t2 < t1 + banDurationMs - 1000) :
+    let n' := stepNet (stepNet n t1 (.banPeer q reason)) t2 (.addPeer p)
+    p ∉ n'.connected ∧ p ∉ n'.pending := by
+  have hnc : p ∉ (stepNet n t1 (.banPeer q reason)).connected := by
+    simp only [stepNet, banPeer]; exact not_mem_afterBan_of_key hq hp
+  have hb : (isBanned (stepNet n t1 (.banPeer q reason)).store t2 p).2 = true := by
+    apply (C13_isBanned_pure _ t2 p).1.mpr
+    refine ⟨k, (t1 + banDurationMs) / 1000, reason, hp, ?_, ?_⟩
+    · simp only [stepNet, banPeer, step_ban_some _ _ _ _ _ k hq, lookup_put_self]
+    · simp only [banDurationMs] at hwin ⊢; omega
+  have := C13_banned_refused (stepNet n t1 (.banPeer q reason)) t2 p hb
+  exact ⟨by rw [this.2.2.1]; exact hnc, this.2.2.2⟩
+
 /-- The facts regenerated from banman/*.go and neutrino.go on this run, on which
 the models above rely: key layout and To4/To16 normalisation, default masks,
 port stripping, masked IP with the mask as given; the stored value is the Unix
-SECONDS of `now + duration`; `Status` deletes when `!now.Before(expiry)`;
+SECONDS of `now + duration`; `Status` deletes when `!now.Before(expiry)`, reading and purging inside ONE
+`walletdb.Update` (no `walletdb.View`), as `BanIPNet` and `UnbanIPNet` are one `Update` each;
 `OnVersion` tests WITNESS and CF, then `BanPeer(addr, NoCompactFilters)`,
 `Disconnect`, return; `handleAddPeerMsg` and `outboundPeerConnected` test
 `IsBanned` before recording / creating the peer; `IsBanned` reads the store on
@@ -480,7 +587,8 @@ theorem C13_source_facts :
     Gen.Ban.defaultV4Mask = "net.CIDRMask(32,32)" ∧ Gen.Ban.defaultV6Mask = "net.CIDRMask(128,128)" ∧
     Gen.Ban.parseSplitsPort = true ∧ Gen.Ban.parseDefaultMasks = true ∧ Gen.Ban.parseMasksIP = true ∧
     Gen.Ban.expiryAbsoluteSeconds = true ∧ Gen.Ban.statusDeletesWhenNotBefore = true ∧
-    Gen.Ban.fetchReadsSeconds = true ∧
+    Gen.Ban.fetchReadsSeconds = true ∧ Gen.Ban.statusOneTransaction = true ∧
+    Gen.Ban.banOneTransaction = true ∧ Gen.Ban.unbanOneTransaction = true ∧
     Gen.Ban.reasonNoCompactFilters = reasonNoCompactFilters ∧ Gen.Ban.banDurationMs = banDurationMs ∧
     Gen.Ban.onVersionServiceTest = true ∧ Gen.Ban.onVersionBans = true ∧ Gen.Ban.onVersionDisconnects = true ∧
     Gen.Ban.requiredServiceFlags = ["wire.SFNodeWitness", "wire.SFNodeCF"] ∧
